@@ -645,6 +645,19 @@ func (c *Ctx) appendBuiltin(cc *ssa.CallCommon, args []*Val, rt types.Type, st *
 			}
 		}
 		c.assumeHere(fmt.Sprintf("(forall ((j %s)) (! (= (select %s j) (ite %s %s (ite %s %s (select %s j)))) :pattern ((select %s j))))", c.idxSort(), na, isOld, oldAt, isNew, addAt, oldRes, na))
+		if n1, ok1 := idxLit(addLen); ok1 && n1 <= 4 {
+			// append(s, x, ...): where the added elements land is also stated without the quantifier
+			for t := int64(0); t < n1; t++ {
+				pos := c.idxAdd(res.Off, c.idxAdd(s.Len, c.idxConst(t)))
+				var v string
+				if add.K == VSlice {
+					v = "(select (select " + m + " " + add.Arr + ") " + c.idxAdd(add.Off, c.idxConst(t)) + ")"
+				} else {
+					v = sApp(c.strByteFn(), add.S, c.idxConst(t))
+				}
+				c.assumeHere(sEq("(select "+na+" "+pos+")", v))
+			}
+		}
 		st.over[name] = c.define("hw", sort, "(store "+m+" "+res.Arr+" "+na+")")
 	}
 	return res
